@@ -1,6 +1,682 @@
-//! C04 — not implemented yet.
+//! C04 — Storage layout and fast-path choice never change an answer.
+//!
+//! One generated row set (1–2 tables, compact specs: nullable BIGINT / INTEGER /
+//! DATE keys over dense and sparse ranges, doubles that are multiples of 0.25,
+//! strings, booleans) is registered as
+//!   * memory, one batch (the baseline),
+//!   * memory, random batch layout,
+//!   * Parquet: 1 file / 1 row group; and two generated layouts out of
+//!     {1 file / many tiny row groups, n files, n files one of which has zero
+//!     rows}, with statistics none/chunk/page and dictionary on/off,
+//! and the same statement (filtered scans, global and grouped aggregates incl.
+//! nullable integer keys, self-joins / repeated table references, joins,
+//! DISTINCT, ORDER BY / LIMIT) is executed on each.
+//!
+//! Two checks, because the planner-threshold hooks are process-global:
+//!   * `layouts`       (parallel): every registration, with morsel execution on
+//!                     and off (`ExecutionConfig::with_morsel_execution`);
+//!   * `forced_paths`  (single worker): every Parquet layout additionally under
+//!                     `verif_hooks::{set_force_big, set_no_prescan,
+//!                     set_force_disjoint}` (filtered scans stream, shared tables
+//!                     are not prescanned, the disjoint fused aggregate runs).
+//! Oracle: every configuration that answers returns the baseline's answer
+//! (multiset; ORDER BY key sequence), and if any configuration answers, every
+//! configuration answers — an `Err` on one layout only is a violation.
+//! `refsql` is evaluated only to annotate a failure message.
 use super::Property;
+use crate::data::*;
+use crate::engine::*;
+use crate::runner::*;
+use proptest::prelude::*;
+use query_engine::{ExecutionConfig, ExecutionContext};
+use serde::{Deserialize, Serialize};
+
+#[path = "cfgdiff_util.rs"]
+mod util;
+use util::*;
+
+#[derive(Clone, Debug, Serialize, Deserialize)]
+pub struct PLayout {
+    /// file cut selectors (monotone → row indices); equal cuts give zero-row files
+    pub file_cut_sels: Vec<u16>,
+    pub row_group_size: usize,
+    /// 0 = none, 1 = chunk, 2 = page
+    pub stats: u8,
+    pub dictionary: bool,
+    /// append an extra cut equal to an existing one → a file with zero rows
+    pub empty_file: bool,
+}
+
+#[derive(Clone, Debug, Serialize, Deserialize)]
+pub struct Case {
+    pub tables: Vec<TableSpec>,
+    pub stmt: Stmt,
+    /// batch cut selectors of the "random batch layout" memory registration
+    pub mem_cut_sels: Vec<Vec<u16>>,
+    /// generated Parquet layouts (the single-file / single-row-group one is always added)
+    pub layouts: Vec<PLayout>,
+}
+
+fn tables_profile(tier: Tier) -> TablesProfile {
+    TablesProfile {
+        max_tables: 2,
+        min_rows: 0,
+        max_rows: tier.pick(260, 3000),
+        max_cols: 4,
+        types: vec![ColType::Int, ColType::Int, ColType::Int32, ColType::Date, ColType::Double, ColType::Double, ColType::Str, ColType::Bool],
+        domains: vec![1, 2, 3, 7, 20, 100, 1000],
+        null_pcts: vec![0, 0, 10, 40],
+        sparse: true,
+        big_rows: if tier == Tier::Thorough { Some((5000, 20000)) } else { None },
+    }
+}
+
+fn opts() -> GenOpts {
+    GenOpts {
+        filter_pct: 60,
+        order_pct: 35,
+        limit_pct: 40,
+        max_join_rows: 20_000,
+        self_join_pct: 60,
+        w_scan: 20,
+        w_join: 20,
+        w_agg: 25,
+        w_dense_agg: 25,
+        no_alias_pct: 65,
+        w_distinct: 10,
+        w_union: 5,
+        union_all: true,
+        null_group_keys_pct: 35,
+        ..GenOpts::default()
+    }
+}
+
+fn playout_strategy() -> impl Strategy<Value = PLayout> {
+    (
+        proptest::collection::vec(any::<u16>(), 0..5),
+        prop_oneof![Just(1usize), Just(2), Just(3), Just(7), Just(50), Just(1 << 20)],
+        prop_oneof![4 => Just(1u8), 1 => Just(0u8), 1 => Just(2u8)],
+        any::<bool>(),
+        proptest::bool::weighted(0.3),
+    )
+        .prop_map(|(file_cut_sels, row_group_size, stats, dictionary, empty_file)| PLayout { file_cut_sels, row_group_size, stats, dictionary, empty_file })
+}
+
+fn strategy(tier: Tier) -> BoxedStrategy<Case> {
+    (
+        tables_spec_strategy(tables_profile(tier)),
+        proptest::collection::vec(any::<u16>(), 0..80),
+        proptest::collection::vec(proptest::collection::vec(any::<u16>(), 0..5), 2),
+        proptest::collection::vec(playout_strategy(), 2),
+    )
+        .prop_map(|(tables, tape, mem_cut_sels, layouts)| {
+            let stmt = gen_stmt(tape, &tables, &opts());
+            Case { tables, stmt, mem_cut_sels, layouts }
+        })
+        .boxed()
+}
+
+fn to_layout(p: &PLayout, n_rows: usize) -> ParquetLayout {
+    let mut cuts = cuts_from(&p.file_cut_sels, n_rows);
+    if p.empty_file {
+        let dup = cuts.first().copied().unwrap_or(n_rows / 2);
+        cuts.push(dup);
+        cuts.sort();
+    }
+    ParquetLayout { file_cuts: cuts, row_group_size: p.row_group_size, stats: p.stats, dictionary: p.dictionary }
+}
+
+/// row groups written for a table under a layout
+fn row_groups(l: &ParquetLayout, n_rows: usize) -> usize {
+    let mut pts: Vec<usize> = l.file_cuts.iter().map(|c| (*c).min(n_rows)).collect();
+    pts.sort();
+    pts.push(n_rows);
+    let mut lo = 0;
+    let mut n = 0;
+    for hi in pts {
+        n += (hi - lo).div_ceil(l.row_group_size.max(1));
+        lo = hi;
+    }
+    n
+}
+
+#[derive(Clone, Copy, Debug, Default, PartialEq)]
+struct Variant {
+    morsel_off: bool,
+    force_big: bool,
+    no_prescan: bool,
+    force_disjoint: bool,
+}
+impl Variant {
+    fn name(&self) -> String {
+        let mut v = vec![];
+        if self.morsel_off {
+            v.push("morsel_off");
+        }
+        if self.force_big {
+            v.push("force_big");
+        }
+        if self.no_prescan {
+            v.push("no_prescan");
+        }
+        if self.force_disjoint {
+            v.push("force_disjoint");
+        }
+        if v.is_empty() {
+            "plain".into()
+        } else {
+            v.join("+")
+        }
+    }
+    fn hooked(&self) -> bool {
+        self.force_big || self.no_prescan || self.force_disjoint
+    }
+}
+
+/// Sets the process-global planner overrides for the duration of one run.
+struct HookGuard;
+impl HookGuard {
+    fn set(v: &Variant) -> HookGuard {
+        query_engine::verif_hooks::set_force_big(v.force_big);
+        query_engine::verif_hooks::set_no_prescan(v.no_prescan);
+        query_engine::verif_hooks::set_force_disjoint(v.force_disjoint);
+        HookGuard
+    }
+}
+impl Drop for HookGuard {
+    fn drop(&mut self) {
+        query_engine::verif_hooks::set_force_big(false);
+        query_engine::verif_hooks::set_no_prescan(false);
+        query_engine::verif_hooks::set_force_disjoint(false);
+    }
+}
+
+enum Reg<'a> {
+    Mem(&'a [Vec<u16>]),
+    /// directory under which `<table>/part-*.parquet` were written
+    Parquet(&'a std::path::Path),
+}
+
+fn run(tables: &[Table], reg: &Reg, v: &Variant, sql: &str) -> RunResult {
+    let cfg = ExecutionConfig::default().with_morsel_execution(!v.morsel_off);
+    let mut ctx = ExecutionContext::with_config(cfg);
+    for (i, t) in tables.iter().enumerate() {
+        match reg {
+            Reg::Mem(sels) => {
+                let cuts = cuts_from(sels.get(i).map(|x| x.as_slice()).unwrap_or(&[]), t.rows.len());
+                register_mem(&mut ctx, t, &cuts);
+            }
+            Reg::Parquet(dir) => {
+                if let Err(e) = ctx.register_parquet(t.name.clone(), dir.join(&t.name)) {
+                    return Err(format!("register_parquet: {}", e));
+                }
+            }
+        }
+    }
+    if v.hooked() {
+        let _g = HookGuard::set(v);
+        run_sql(&ctx, sql)
+    } else {
+        run_sql(&ctx, sql)
+    }
+}
+
+fn has(c: &Case, f: &str) -> bool {
+    c.stmt.features.iter().any(|x| x == f)
+}
+
+struct Outcome {
+    name: String,
+    parquet: bool,
+    row_groups: usize,
+    /// Parquet statistics level of the layout (0 none / 1 chunk / 2 page); memory: 0
+    stats: u8,
+    variant: Variant,
+    result: RunResult,
+    marks: Vec<&'static str>,
+}
+
+/// Known-finding signatures (see known_findings.json, property C04). `a` and `b`
+/// are two configurations that disagree (one of them may have failed).
+fn classify(c: &Case, tables: &[Table], a: &Outcome, b: &Outcome) -> Option<&'static str> {
+    use crate::sqlast::*;
+    let f = |x: &str| has(c, x);
+    let q = &c.stmt.query;
+    let sel = match &q.body {
+        SetExpr::Select(s) => Some(s.as_ref()),
+        _ => None,
+    };
+    let err_of = |o: &Outcome| o.result.as_ref().err().cloned().unwrap_or_default();
+    let (ea, eb) = (err_of(a), err_of(b));
+    let any_err = |pat: &str| ea.contains(pat) || eb.contains(pat);
+    let morsel_parquet = |o: &Outcome| o.parquet && !o.variant.morsel_off;
+
+    // (1) MorselAggregateExec's dense direct-address path rejects NULL group keys
+    if any_err("dense agg: null group keys unsupported") && f("group_by") && f("groupkey_nullable") {
+        return Some("morsel-dense-null-group-key");
+    }
+    // (2) aggregate-input type of a table-qualified column defaults to Float64 on the
+    //     morsel paths (the file schema is unqualified): dense path errors, generic
+    //     path sums an integer column as NULL
+    let qualified_agg_over_unaliased = f("no_alias") && f("shape_agg");
+    if qualified_agg_over_unaliased && (any_err("dense agg: expected Float64") || any_err("dense agg: expected Int64")) {
+        return Some("morsel-agg-qualified-column-type");
+    }
+    if let (Ok(ra), Ok(rb), Some(s)) = (&a.result, &b.result, sel) {
+        let sentinel_vs_null = ra.len() == 1
+            && rb.len() == 1
+            && ra[0].iter().zip(rb[0].iter()).any(|(x, y)| match (x, y) {
+                (Value::Null, Value::Double(d)) | (Value::Double(d), Value::Null) => d.is_infinite() || *d == f64::MAX || *d == f64::MIN,
+                (Value::Null, Value::Int(i)) | (Value::Int(i), Value::Null) => *i == i64::MAX || *i == i64::MIN || *i == i32::MAX as i64 || *i == i32::MIN as i64,
+                _ => false,
+            });
+        if qualified_agg_over_unaliased && !sentinel_vs_null && (morsel_parquet(a) != morsel_parquet(b)) {
+            let (only_a, only_b) = sym_diff(ra, rb);
+            let (morsel_rows, other_rows) = if morsel_parquet(a) { (&only_a, &only_b) } else { (&only_b, &only_a) };
+            let sum_cols: Vec<usize> = s
+                .items
+                .iter()
+                .enumerate()
+                .filter(|(_, it)| matches!(it, Item::Expr(Expr::Agg { f: AggF::Sum | AggF::Avg | AggF::Min | AggF::Max, .. }, _)))
+                .map(|(j, _)| j)
+                .collect();
+            let null_in_agg = |r: &Vec<Value>| sum_cols.iter().any(|j| r.get(*j).map(|v| v.is_null()).unwrap_or(false));
+            if !morsel_rows.is_empty() && morsel_rows.iter().all(null_in_agg) && morsel_rows.len() == other_rows.len() {
+                return Some("morsel-agg-qualified-column-type");
+            }
+        }
+    }
+    // (2b) the dense direct-address aggregate has no "saw a non-NULL input" state: SUM of a
+    //      group with only NULL inputs is 0 and its AVG is NaN (0/0) instead of NULL
+    if let (Ok(ra), Ok(rb), Some(s)) = (&a.result, &b.result, sel) {
+        if let Group::By(keys) = &s.group {
+            if keys.len() == 1 && morsel_parquet(a) != morsel_parquet(b) {
+                let (only_a, only_b) = sym_diff(ra, rb);
+                let (m, o) = if morsel_parquet(a) { (&only_a, &only_b) } else { (&only_b, &only_a) };
+                let zeroish = |v: &Value| match v {
+                    Value::Int(0) => true,
+                    Value::Double(d) => *d == 0.0 || d.is_nan(),
+                    _ => false,
+                };
+                if !m.is_empty()
+                    && m.len() == o.len()
+                    && m.iter().all(|r| {
+                        // the row of the other side with the same key differs only in NULL vs 0/NaN cells
+                        o.iter().any(|q| {
+                            value_eq(&q[0], &r[0], 0.0) && q.iter().zip(r.iter()).all(|(x, y)| value_eq(x, y, 1e-9) || (x.is_null() && zeroish(y)))
+                        })
+                    })
+                {
+                    return Some("morsel-dense-sum-of-no-values");
+                }
+            }
+        }
+    }
+    // (3) an aggregate function / input type pair implemented by one aggregation path only
+    let not_impl = |e: &str| e.contains("Not implemented: ") && (e.contains("not implemented for type") || e.contains("not supported"));
+    if (not_impl(&ea) || not_impl(&eb)) && (f("shape_agg") || f("shape_distinct")) {
+        return Some("agg-type-not-implemented-on-some-path");
+    }
+    // (3b) C01 finding agg-empty-input: a global aggregate over no (non-NULL) input returns a
+    //      sentinel on some paths and NULL on others
+    if let (Ok(ra), Ok(rb)) = (&a.result, &b.result) {
+        if f("global_agg") && ra.len() == 1 && rb.len() == 1 {
+            let sentinel = |v: &Value| match v {
+                Value::Int(i) => *i == i64::MAX || *i == i64::MIN || *i == i32::MAX as i64 || *i == i32::MIN as i64,
+                Value::Double(d) => d.is_infinite() || *d == f64::MAX || *d == f64::MIN,
+                Value::Date(d) => *d == i32::MAX || *d == i32::MIN,
+                _ => false,
+            };
+            let cells: Vec<(&Value, &Value)> = ra[0].iter().zip(rb[0].iter()).filter(|(x, y)| !value_eq(x, y, 1e-9)).collect();
+            if !cells.is_empty() && cells.iter().all(|(x, y)| (x.is_null() && sentinel(y)) || (y.is_null() && sentinel(x))) {
+                return Some("agg-empty-input");
+            }
+        }
+    }
+    // (4) C01 finding agg-null-group-key: which aggregation path runs depends on the layout
+    if let (Ok(ra), Ok(rb), Some(s)) = (&a.result, &b.result, sel) {
+        if let Group::By(keys) = &s.group {
+            let nk = keys.len();
+            let (only_a, only_b) = sym_diff(ra, rb);
+            let null_key = |r: &Vec<Value>| r.iter().take(nk).any(|v| v.is_null());
+            // the NULL group is dropped, split, or merged into ONE other group (the raw
+            // integer-key path folds NULL into a sentinel key): the differing rows belong
+            // to the NULL group(s) and to at most one further group
+            let mut other_keys: Vec<Vec<Value>> = only_a.iter().chain(only_b.iter()).filter(|r| !null_key(r)).map(|r| r.iter().take(nk).cloned().collect()).collect();
+            other_keys.sort_by(|x, y| row_cmp(x, y));
+            other_keys.dedup();
+            // (the NULL group itself may be equal on both sides while its rows also leaked
+            // into the sentinel group: the data condition is a NULL key in either answer)
+            let some_null = ra.iter().chain(rb.iter()).any(null_key);
+            if some_null && !(only_a.is_empty() && only_b.is_empty()) && other_keys.len() <= 1 {
+                return Some("agg-null-group-key");
+            }
+        }
+    }
+    // (5) PackedJoinKeys takes integer bounds for a join-key column from ANY table that
+    //     has a column of that name
+    if f("join_inner") && f("join_multikey") && (a.parquet != b.parquet || a.stats != b.stats) {
+        if let Some(s) = sel {
+            if let Some(From::Join { on: Some(on), .. }) = s.from.first() {
+                let mut key_names: Vec<String> = vec![];
+                on.walk(&mut |e| {
+                    if let Expr::Col { name, .. } = e {
+                        key_names.push(name.clone());
+                    }
+                });
+                let foreign = key_names.iter().any(|n| {
+                    let tys: Vec<ColType> = c.tables.iter().flat_map(|t| t.cols.iter().filter(|col| &col.name == n).map(|col| col.ty)).collect();
+                    tys.iter().any(|t| t.is_int()) && tys.iter().any(|t| !t.is_int())
+                });
+                if foreign {
+                    return Some("packed-join-keys-foreign-bounds");
+                }
+            }
+        }
+    }
+    // (6) GroupKeyReduction treats ndv_est = min(rows, max-min+1) >= rows as proof of uniqueness
+    if f("group_by") && (a.stats != b.stats || a.parquet != b.parquet) {
+        if let Some(s) = sel {
+            if let Group::By(keys) = &s.group {
+                if keys.len() >= 2 {
+                    for k in keys {
+                        if let Expr::Col { name, .. } = k {
+                            for (t, spec) in tables.iter().zip(c.tables.iter()) {
+                                if let Some(j) = spec.cols.iter().position(|col| &col.name == name && (col.ty.is_int() || col.ty == ColType::Date)) {
+                                    let vals: Vec<i64> = t
+                                        .rows
+                                        .iter()
+                                        .filter_map(|r| match r[j] {
+                                            Value::Int(i) => Some(i),
+                                            Value::Date(d) => Some(d as i64),
+                                            _ => None,
+                                        })
+                                        .collect();
+                                    if vals.len() == t.rows.len() && !vals.is_empty() {
+                                        let (lo, hi) = (*vals.iter().min().unwrap(), *vals.iter().max().unwrap());
+                                        let mut d = vals.clone();
+                                        d.sort();
+                                        d.dedup();
+                                        if (hi as i128 - lo as i128 + 1) >= vals.len() as i128 && d.len() < vals.len() {
+                                            return Some("group-key-reduction-ndv-not-proof");
+                                        }
+                                    }
+                                }
+                            }
+                        }
+                    }
+                }
+            }
+        }
+    }
+    None
+}
+
+fn judge(c: &Case, obs: &mut Obs, variants: &[Variant], with_mem_layout: bool, use_marks: bool) -> Verdict {
+    let tables: Vec<Table> = c.tables.iter().map(|t| t.expand()).collect();
+    let sql = c.stmt.query.sql();
+    for f in &c.stmt.features {
+        obs.label(format!("feat:{}", f));
+    }
+    obs.sample(serde_json::json!({"sql": sql, "rows": c.tables.iter().map(|t| t.n_rows).collect::<Vec<_>>(),
+        "layouts": c.layouts.iter().map(|l| format!("rg={} files={} stats={} empty_file={}", l.row_group_size, l.file_cut_sels.len() + 1, l.stats, l.empty_file)).collect::<Vec<_>>() }));
+    let tol = if c.stmt.uses_avg { 1e-9 } else { 0.0 };
+    let tmp = TempDir::new("c04");
+    let plain = Variant::default();
+    let mut outs: Vec<Outcome> = vec![];
+    let take = |use_marks: bool| -> Vec<&'static str> {
+        if use_marks {
+            query_engine::verif_hooks::take_marks().into_keys().collect()
+        } else {
+            vec![]
+        }
+    };
+    let _ = take(use_marks);
+    // memory
+    outs.push(Outcome { name: "memory/1-batch".into(), parquet: false, row_groups: 0, stats: 0, variant: plain, result: run(&tables, &Reg::Mem(&[]), &plain, &sql), marks: take(use_marks) });
+    if with_mem_layout {
+        outs.push(Outcome { name: "memory/batches".into(), parquet: false, row_groups: 0, stats: 0, variant: plain, result: run(&tables, &Reg::Mem(&c.mem_cut_sels), &plain, &sql), marks: take(use_marks) });
+    }
+    // parquet layouts: the canonical one + the generated ones
+    let mut layouts: Vec<(String, Vec<ParquetLayout>)> = vec![("parquet/1file-1rg".into(), tables.iter().map(|_| ParquetLayout::single()).collect())];
+    for (i, p) in c.layouts.iter().enumerate() {
+        layouts.push((
+            format!("parquet/L{}(rg={},files={},stats={},dict={},empty_file={})", i, p.row_group_size, p.file_cut_sels.len() + 1, p.stats, p.dictionary, p.empty_file),
+            tables.iter().map(|t| to_layout(p, t.rows.len())).collect(),
+        ));
+    }
+    for (li, (lname, per_table)) in layouts.iter().enumerate() {
+        let dir = tmp.path().join(format!("l{}", li));
+        let mut rgs = 0;
+        for (t, l) in tables.iter().zip(per_table.iter()) {
+            write_parquet(t, &dir.join(&t.name), l);
+            rgs = rgs.max(row_groups(l, t.rows.len()));
+        }
+        for v in variants {
+            // canonical layout: plain and the all-overrides variant only
+            if li == 0 && *v != plain && !(v.force_big && v.no_prescan && v.force_disjoint && !v.morsel_off) {
+                continue;
+            }
+            outs.push(Outcome { name: format!("{} [{}]", lname, v.name()), parquet: true, row_groups: rgs, stats: per_table.iter().map(|l| l.stats).max().unwrap_or(0), variant: *v, result: run(&tables, &Reg::Parquet(&dir), v, &sql), marks: take(use_marks) });
+        }
+    }
+
+    // ---- oracle
+    let n_ok = outs.iter().filter(|o| o.result.is_ok()).count();
+    for o in &outs {
+        if let Err(e) = &o.result {
+            obs.label(format!("error:{}", short_err(e)));
+        }
+        for m in &o.marks {
+            obs.label(format!("path:{}", m));
+        }
+    }
+    if n_ok == 0 {
+        obs.label("all_configurations_error");
+        return Verdict::Pass;
+    }
+    let base_idx = outs.iter().position(|o| o.result.is_ok()).unwrap();
+    let mut known: Option<(String, String)> = None;
+    let describe = |a: &Outcome, b: &Outcome, why: &str| -> String {
+        let show = |o: &Outcome| match &o.result {
+            Ok(r) => format!("{} rows", r.len()),
+            Err(e) => format!("ERROR {}", e.lines().next().unwrap_or("")),
+        };
+        let mut s = format!("{}\n sql: {}\n  [{}] -> {}\n  [{}] -> {}\n", why, sql, a.name, show(a), b.name, show(b));
+        if let (Ok(x), Ok(y)) = (&a.result, &b.result) {
+            s.push_str(&diff_summary(x, y, 8));
+            s.push_str(&format!("\n {}", third_opinion(&tables, &c.stmt.query, &[("first", x), ("second", y)], tol)));
+        } else if let Ok(x) = a.result.as_ref().or(b.result.as_ref()) {
+            s.push_str(&format!(" {}", third_opinion(&tables, &c.stmt.query, &[("the answering side", x)], tol)));
+        }
+        let vs_base = |o: &Outcome| match (&outs[base_idx].result, &o.result) {
+            (Ok(x), Ok(y)) => {
+                if same_answer(x, y, &c.stmt.order_keys, tol).is_ok() {
+                    " (= baseline)"
+                } else {
+                    " (DIFFERS)"
+                }
+            }
+            _ => "",
+        };
+        s.push_str(&format!(
+            "\n all configurations (baseline = [{}]):\n   {}\n tables:\n{}",
+            outs[base_idx].name,
+            outs.iter().map(|o| format!("{} -> {}{}", o.name, show(o), vs_base(o))).collect::<Vec<_>>().join("\n   "),
+            fmt_specs(&c.tables)
+        ));
+        s
+    };
+    for (i, o) in outs.iter().enumerate() {
+        if i == base_idx {
+            continue;
+        }
+        let base = &outs[base_idx];
+        let bad: Option<String> = match (&base.result, &o.result) {
+            (Ok(a), Ok(b)) => same_answer(a, b, &c.stmt.order_keys, tol).err().map(|w| format!("answers differ between configurations: {}", w)),
+            (Ok(_), Err(_)) => Some("the statement succeeds on one configuration and fails on another".to_string()),
+            _ => None,
+        };
+        if let Some(why) = bad {
+            let msg = describe(base, o, &why);
+            match classify(c, &tables, base, o) {
+                Some(id) => {
+                    obs.label(format!("known:{}", id));
+                    known.get_or_insert((id.to_string(), msg));
+                }
+                None => return Verdict::Fail(msg),
+            }
+        }
+    }
+    // ---- non-triviality
+    let mem_ok = outs.iter().any(|o| !o.parquet && o.result.is_ok());
+    let multi_rg_ok = outs.iter().any(|o| o.parquet && o.row_groups > 1 && o.result.is_ok());
+    obs.nontrivial(mem_ok && multi_rg_ok);
+    if multi_rg_ok {
+        obs.label("parquet_multi_row_group_answered");
+    }
+    let mut path_sets: Vec<&Vec<&'static str>> = outs.iter().filter(|o| !o.marks.is_empty()).map(|o| &o.marks).collect();
+    path_sets.sort();
+    path_sets.dedup();
+    if path_sets.len() >= 2 {
+        obs.label("two_or_more_distinct_physical_paths");
+    }
+    match known {
+        Some((id, msg)) => Verdict::Known { id, msg },
+        None => Verdict::Pass,
+    }
+}
+
+pub struct Layouts;
+impl Check for Layouts {
+    type Case = Case;
+    fn name(&self) -> &'static str {
+        "layouts"
+    }
+    fn rule(&self) -> &'static str {
+        "the statement was answered by a memory registration and by at least one Parquet registration with more than one row group (so >=2 layouts that differ in kind were compared)"
+    }
+    fn cases(&self, tier: Tier) -> u32 {
+        tier.pick(320, 10_000)
+    }
+    fn max_shrink_iters(&self) -> u32 {
+        400
+    }
+    fn strategy(&self, tier: Tier) -> BoxedStrategy<Case> {
+        strategy(tier)
+    }
+    fn test(&self, c: &Case, obs: &mut Obs) -> Verdict {
+        let variants = [Variant::default(), Variant { morsel_off: true, ..Variant::default() }];
+        judge(c, obs, &variants, true, false)
+    }
+}
+
+pub struct ForcedPaths;
+impl Check for ForcedPaths {
+    type Case = Case;
+    fn name(&self) -> &'static str {
+        "forced_paths"
+    }
+    fn rule(&self) -> &'static str {
+        "as `layouts`, where the Parquet registrations ran under the planner overrides force_big / no_prescan / force_disjoint (alone, combined, and with morsel execution off)"
+    }
+    fn cases(&self, tier: Tier) -> u32 {
+        tier.pick(80, 4_000)
+    }
+    fn workers(&self, _tier: Tier) -> usize {
+        1 // verif_hooks overrides are process-global atomics
+    }
+    fn max_shrink_iters(&self) -> u32 {
+        400
+    }
+    fn strategy(&self, tier: Tier) -> BoxedStrategy<Case> {
+        strategy(tier)
+    }
+    fn test(&self, c: &Case, obs: &mut Obs) -> Verdict {
+        let variants = [
+            Variant { force_big: true, ..Variant::default() },
+            Variant { no_prescan: true, ..Variant::default() },
+            Variant { force_disjoint: true, ..Variant::default() },
+            Variant { force_big: true, no_prescan: true, force_disjoint: true, morsel_off: false },
+            Variant { force_big: true, no_prescan: true, force_disjoint: true, morsel_off: true },
+        ];
+        judge(c, obs, &variants, false, true)
+    }
+}
 
 pub fn property() -> Property {
-    Property { id: "C04", level: "exploration", assumptions: &[], checks: vec![] }
+    Property {
+        id: "C04",
+        level: "exploration",
+        assumptions: &[
+            "the size-gated planner paths (streaming filtered scan > 400 MB, no prescan > 400 MB, disjoint fused aggregate for 2M..64M key ranges) are reached through the verif-hooks overrides, not through files of that size",
+            "an error on every configuration is an allowed outcome; an error on some but not all configurations is a violation (property text)",
+            "doubles are multiples of 0.25 so sums are exact under any association order; AVG results are compared with relative tolerance 1e-9",
+            "LIMIT/OFFSET are generated only with an ORDER BY over all output columns, so the statement has one right answer",
+        ],
+        checks: vec![Box::new(Layouts), Box::new(ForcedPaths)],
+    }
+}
+
+/// Triage aid (`check --worker c04dbg <replay.json> ["other sql"]`): physical
+/// plans and answers of the statement on the memory and Parquet registrations.
+pub fn debug(args: &[String]) {
+    let doc: serde_json::Value = serde_json::from_str(&std::fs::read_to_string(&args[0]).expect("read")).expect("json");
+    let c: Case = serde_json::from_value(doc["case"].clone()).expect("case");
+    let sql = args.get(1).cloned().unwrap_or_else(|| c.stmt.query.sql());
+    let tables: Vec<Table> = c.tables.iter().map(|t| t.expand()).collect();
+    println!("SQL: {}\n{}", sql, fmt_specs(&c.tables));
+    let tmp = TempDir::new("c04dbg");
+    let mut regs: Vec<(String, Option<std::path::PathBuf>)> = vec![("memory".into(), None)];
+    let mut layouts: Vec<Vec<ParquetLayout>> = vec![tables.iter().map(|_| ParquetLayout::single()).collect()];
+    for p in &c.layouts {
+        layouts.push(tables.iter().map(|t| to_layout(p, t.rows.len())).collect());
+    }
+    for (li, per_table) in layouts.iter().enumerate() {
+        let dir = tmp.path().join(format!("l{}", li));
+        for (t, l) in tables.iter().zip(per_table.iter()) {
+            write_parquet(t, &dir.join(&t.name), l);
+        }
+        regs.push((format!("parquet L{} {:?}", li, per_table), Some(dir)));
+    }
+    let variants = [
+        Variant::default(),
+        Variant { morsel_off: true, ..Variant::default() },
+        Variant { force_big: true, ..Variant::default() },
+        Variant { no_prescan: true, ..Variant::default() },
+        Variant { force_disjoint: true, ..Variant::default() },
+    ];
+    for (name, dir) in &regs {
+        for v in &variants {
+            if dir.is_none() && *v != Variant::default() {
+                continue;
+            }
+            let cfg = ExecutionConfig::default().with_morsel_execution(!v.morsel_off);
+            let mut ctx = ExecutionContext::with_config(cfg);
+            for t in &tables {
+                match dir {
+                    None => register_mem(&mut ctx, t, &[]),
+                    Some(d) => ctx.register_parquet(t.name.clone(), d.join(&t.name)).expect("register"),
+                }
+            }
+            let _g = HookGuard::set(v);
+            let plan = match ctx.physical_plan(&sql) {
+                Ok(p) => query_engine::physical::display_plan(p.as_ref(), 0).replace('\n', " / "),
+                Err(e) => format!("plan error: {}", e),
+            };
+            if std::env::var("C04DBG_LOGICAL").is_ok() {
+                match ctx.optimized_plan(&sql) {
+                    Ok(p) => println!("    optimized logical plan:\n{}", p),
+                    Err(e) => println!("    optimize error: {}", e),
+                }
+            }
+            match run_sql(&ctx, &sql) {
+                Ok(mut r) => {
+                    canon_sort(&mut r);
+                    println!("--- {} [{}]\n    plan: {}\n    {} rows, marks {:?}\n{}", name, v.name(), plan, r.len(), query_engine::verif_hooks::take_marks(), fmt_rows(&r, 12));
+                }
+                Err(e) => println!("--- {} [{}]\n    plan: {}\n    ERROR {}", name, v.name(), plan, e),
+            }
+        }
+    }
 }
